@@ -28,7 +28,8 @@ RULE = ('one or two groups whose data (H, S, 1-4 Cp points, range) are split '
         'length 1-8 with and without overwrite, rejected updates, repeated '
         'pieces, library-level Update with aliasing probes. Non-trivial = a '
         'split whose every order/nesting was loaded and compared, or a '
-        'history whose every step was compared; distinct by split/history.')
+        'history whose every step was compared; distinct by split/history.'
+        ' Pieces may consist of a range alone. ')
 ASSUMPTIONS = [
     'all pieces share one T_ref; every piece that carries Cp points carries a '
     'range containing them and T_ref (the constructor demands it)',
@@ -99,6 +100,36 @@ def snapshot(c):
     return {'H': c.ND_H_ref, 'S': c.ND_S_ref, 'Cp': dict(c.ND_Cp_data or {}),
             'T_ref': c.T_ref, 'range': None if r is None else
             [float(r[0]), float(r[1])]}
+
+
+def behaves_like_its_data(c):
+    """None if the merged object evaluates like a correlation constructed
+    afresh from the very data it reports (H, S, Cp points, T_ref, range),
+    else a reason.  A merge that leaves the stored fields right and the
+    internal interpolant stale is caught here."""
+    st = snapshot(c)
+    fresh = observe(type(c), st['H'], st['S'], dict(st['Cp']), st['T_ref'],
+                    tuple(st['range']) if st['range'] else None)
+    if 'exc' in fresh:
+        return None         # its own data are not constructible: not judged
+    f = fresh['ok']
+    lo, hi = st['range'] if st['range'] else (st['T_ref'], st['T_ref'])
+    ts = sorted(set([st['T_ref'], lo, hi, 0.5 * (lo + hi)] +
+                    [float(t) for t in list(st['Cp'])[:3]]))
+    ts = [t for t in ts if lo <= t <= hi]
+    for T in ts:
+        for name in ('get_CpoR', 'get_HoRT', 'get_SoR'):
+            a = observe(getattr(c, name), T)
+            b = observe(getattr(f, name), T)
+            if ('exc' in a) != ('exc' in b) or (
+                    'exc' in a and a['exc'] != b['exc']):
+                return '%s(%g): merged %s, rebuilt %s' % (
+                    name, T, a.get('exc', 'returns'), b.get('exc', 'returns'))
+            if 'ok' in a and abs(float(a['ok']) - float(b['ok'])) > 1e-10 * (
+                    abs(float(a['ok'])) + abs(float(b['ok'])) + 1e-300):
+                return '%s(%g): merged %r, rebuilt %r' % (name, T, a['ok'],
+                                                          b['ok'])
+    return None
 
 
 def same_state(got, want, tol_ulp=4):
@@ -244,6 +275,8 @@ def check_split(ctx, case):
         pieces = split(rng, data, nfiles, tref)
         gp[name] = pieces
     conflict = case.get('conflict')
+    import copy as _copy
+    gp_clean = _copy.deepcopy(gp)
     top_piece = None
     if rng.random() < 0.3:
         # the top file itself holds a duplicate of one datum
@@ -305,6 +338,43 @@ def check_split(ctx, case):
             with libfiles.TempTree() as tree:
                 p = write_tree(tree, gp, structure, tref, top_piece)
                 o = observe(libs.fresh, p)
+                if expect_conflict and 'exc' in o and n_loaded % 5 == 0:
+                    # the same files once more, then the files REPAIRED in
+                    # place (same paths, same process): a failed load must
+                    # leave nothing behind
+                    o2 = observe(libs.fresh, p)
+                    if o2.get('exc') != o['exc']:
+                        ctx.violation('a second load of the same conflicting '
+                                      'files behaves differently', dict(
+                                          case, order=list(od)),
+                                      {'first': o['exc'],
+                                       'second': o2.get('exc', 'loaded')})
+                        return
+                    write_tree(tree, gp_clean, structure, tref, None)
+                    o3 = observe(libs.fresh, p)
+                    bad = None
+                    if 'exc' in o3:
+                        bad = 'raises %s' % o3['exc']
+                    else:
+                        for g_, pieces_ in gp_clean.items():
+                            st_ = EMPTY
+                            for p_ in pieces_:
+                                if has_any(p_):
+                                    st_ = ref_merge(st_, p_)
+                            if not any(has_any(x) for x in pieces_):
+                                continue
+                            e_ = o3['ok'][g_]
+                            w_ = same_state(snapshot(e_['thermochem']), st_) \
+                                if 'thermochem' in e_ else 'group missing'
+                            if w_:
+                                bad = w_
+                    if bad:
+                        ctx.violation('loading the repaired files after a '
+                                      'failed load: %s' % bad.split(' (')[0],
+                                      dict(case, order=list(od)),
+                                      {'why': bad})
+                        return
+                    ctx.count('repaired_after_failed_load')
             ctx.evals()
             c = dict(case, order=list(od), nesting=nname, T_ref=tref,
                      places=places)
@@ -350,6 +420,14 @@ def check_split(ctx, case):
                     ctx.violation('T_ref changed by the merge', c,
                                   {'got': got['T_ref']})
                     return
+                why = behaves_like_its_data(ent['thermochem'])
+                ctx.evals()
+                if why:
+                    ctx.violation('merged correlation does not evaluate like '
+                                  'its own data', c, {'why': why,
+                                                      'pieces': gp[g]})
+                    return
+                ctx.count('merged_objects_evaluated_against_rebuilt')
             n_loaded += 1
     if n_loaded:
         ctx.nontrivial(['split', case['key'], bool(conflict)])
@@ -462,6 +540,12 @@ def check_history(ctx, case):
                 if zero and ('lost' in why or 'differs' in why) else ''), c,
                 {'why': why, 'state_before': state, 'want': new_state})
             return
+        why = behaves_like_its_data(target)
+        if why:
+            ctx.violation('updated correlation does not evaluate like its own '
+                          'data', c, {'why': why, 'state': new_state})
+            return
+        ctx.count('merged_objects_evaluated_against_rebuilt')
         if src == 'repeat' and not ow:
             ctx.count('idempotence_checked')
         state = new_state
